@@ -1683,3 +1683,48 @@ Proof.
                 (unit_index_meta_noti _ _ _ _ Hne) Hq) as H.
   destruct r as [[nd|]|e|w]; exact H.
 Qed.
+
+(** * Round 7: Reset clears the data whatever the bookkeeping says
+
+    The history [ops] is ANY list of calls: it may contain deletes / updates
+    addressed to the metadata subtree (meta/targetLeaves, meta, meta/* ...),
+    which rewrite the counters through [md_reset_entry] while the data leaves
+    stay.  No hypothesis on the metadata of the target is needed: Reset deletes
+    from the root map of the tree. *)
+Lemma reset_clears_leaves_any_history cfg names ops name now t c' feed :
+  name <> ""%string ->
+  assoc name (c_targets (crun (new_cache cfg names) ops)) = Some t ->
+  cache_reset (crun (new_cache cfg names) ops) now name = (c', feed, None) ->
+  exists t', assoc name (c_targets c') = Some t' /\
+    (forall p0 rest v, lookup (t_tree t') (p0 :: rest) = Some v -> p0 = md_root) /\
+    (forall p0 rest v, lookup (t_tree t) (p0 :: rest) = Some v -> p0 <> md_root ->
+       In (delete_noti name p0 now ["*"]) feed /\ qmatch [p0; "*"] (p0 :: rest) = true).
+Proof.
+  intros Hne Ha Hr.
+  destruct (reachable_target cfg names ops name t Ha) as (Hwf & Hnm & _).
+  unfold cache_reset in Hr. rewrite Ha in Hr.
+  destruct (target_reset t now) as [[t' fd] p] eqn:E.
+  inversion Hr; subst c' feed p; clear Hr.
+  assert (Hne' : t_name t <> ""%string) by (rewrite Hnm; exact Hne).
+  destruct (reset_clears_leaves t now t' fd Hwf Hne' E) as [H1 H2].
+  exists t'. split.
+  - unfold set_target; cbn [c_targets]. rewrite assoc_aset, String.eqb_refl. reflexivity.
+  - split; [exact H1|]. intros p0 rest v Hl Hp. rewrite <- Hnm. exact (H2 p0 rest v Hl Hp).
+Qed.
+
+(** the hypotheses are satisfiable by a history in which the leaf counter lies:
+    two data leaves stored, a delete addressed to meta/targetLeaves zeroes the
+    counter, Reset is not refused *)
+Definition ex7_del_counter (tgt : string) (ts : Z) : notif :=
+  Notif ts (Some (gp_prefix tgt "" [])) None [] [gp_of_names [md_root; md_leaf_count]] false.
+Definition ex7_ops : list mop := ex_ops ++ [MUpd 4 (ex7_del_counter "t" 4)].
+
+Example ex7_reset_hyps :
+  exists t c' feed,
+    assoc "t" (c_targets (crun (new_cache ex_cfg ["t"; "u"]) ex7_ops)) = Some t /\
+    md_get_int (t_meta t) md_leaf_count = Some 0 /\
+    lookup (t_tree t) ["a"; "b"] <> None /\ lookup (t_tree t) ["a"; "c"] <> None /\
+    cache_reset (crun (new_cache ex_cfg ["t"; "u"]) ex7_ops) 5 "t" = (c', feed, None).
+Proof.
+  vm_compute. do 3 eexists. repeat split; try reflexivity; discriminate.
+Qed.
